@@ -394,7 +394,7 @@ def r12_3(prog: Program, rep: Report):
                     reasons.append(f"derives its answer from the text of {ap} (equal annotations print differently: Optional[X] == X | None, Union[A, B] == Union[B, A])")
                 if r == x:
                     reasons.append(f"returns {ap} itself (equal annotations are distinct objects: union member order is not part of ==)")
-                if T.contains(r, lambda s: (T.is_call_to(s, f"{C.INSP}.args", "typing.get_args") and s[2][:1] == (x,)) or s == ("attr", x, "__args__")):
+                if T.contains(r, lambda s: (T.is_call_to(s, f"{C.INSP}.args", "typing.get_args") and s[2][:1] == (x,)) or s == ("attr", x, "__args__") or (T.is_call_to(s, "builtins.getattr") and s[2][:2] == (x, ("const", "__args__")))):
                     if r[0] != "call" or T.refname(r[1]) not in ("builtins.all", "builtins.any", "builtins.bool", "builtins.len"):
                         reasons.append(f"reads the members of {ap} into its result")
                 if T.contains(r, lambda s: s[0] == "call" and T.refname(s[1]) in (f"{C.INSP}.unwrap", "typelib.graph.itertypes", "typelib.graph.static_order", "typelib.graph.get_type_graph", "typelib.marshals.api.marshaller", "typelib.unmarshals.api.unmarshaller") and (x in s[2] or x in [v for _, v in s[3]])) or T.contains(r, lambda s: T.is_call_to(s, "typelib.ctx.TypeContext")):
